@@ -60,3 +60,32 @@ def build_all(probe=False, fallback=False):
         build_probe()
     if fallback:
         build_fallback()
+
+
+def build_fallback():
+    """xcp built from the same sources against libfs' non-Linux backend (libfs/src/fallback.rs).  The repository's own
+    feature wiring cannot select it (libxcp's libfs dependency always enables use_linux), so two shadow manifests are
+    generated from /repo's manifests at check time; sources are referenced by absolute path, /repo is untouched."""
+    import re
+    os.makedirs(os.path.join(FB_DIR, "libxcp"), exist_ok=True)
+    top = open(os.path.join(REPO, "Cargo.toml")).read()
+    lib = open(os.path.join(REPO, "libxcp", "Cargo.toml")).read()
+    # --- libxcp shadow
+    lib = re.sub(r'(?m)^libfs\s*=.*$', 'libfs = { path = "%s/libfs", default-features = false }' % REPO, lib)
+    lib = re.sub(r'(?ms)^\[features\].*?(?=^\[)', '[features]\ndefault = ["parblock"]\nparblock = []\nuse_linux = []\n\n', lib)
+    lib = re.sub(r'(?m)^readme\s*=.*\n', '', lib)
+    lib += '\n[lib]\npath = "%s/libxcp/src/lib.rs"\n' % REPO
+    open(os.path.join(FB_DIR, "libxcp", "Cargo.toml"), "w").write(lib)
+    # --- xcp shadow
+    top = re.sub(r'(?ms)^\[workspace\].*?(?=^\[)', '', top)
+    top = re.sub(r'(?m)^libfs\s*=.*$', 'libfs = { path = "%s/libfs", default-features = false }' % REPO, top)
+    top = re.sub(r'(?m)^libxcp\s*=.*$', 'libxcp = { path = "%s/libxcp", default-features = false, features = ["parblock"] }' % FB_DIR, top)
+    top = re.sub(r'(?ms)^\[features\].*?(?=^\[)', '[features]\ndefault = ["parblock"]\nparblock = []\nuse_linux = []\n\n', top)
+    top = re.sub(r'(?m)^readme\s*=.*\n', '', top)
+    top = re.sub(r'(?ms)^\[dev-dependencies\].*?(?=^\[)', '', top)
+    top += '\n[[bin]]\nname = "xcp"\npath = "%s/src/main.rs"\n\n[workspace]\n' % REPO
+    open(os.path.join(FB_DIR, "Cargo.toml"), "w").write(top)
+    shutil.copy(os.path.join(REPO, "Cargo.lock"), os.path.join(FB_DIR, "Cargo.lock"))
+    _run(["cargo", "build", "--release", "--offline", "--manifest-path", os.path.join(FB_DIR, "Cargo.toml"),
+          "--target-dir", os.path.join(FB_DIR, "target"), "--bin", "xcp"], what="xcp fallback backend")
+    return XCP_FB
